@@ -262,6 +262,15 @@ def generate(rng, tier, n):
             cases.append(_case([["churn", 0, k, c], ["new", 50, c], ["sweep"], ["rel", 4, 50, 50], ["query", c],
                                 ["churn", 60, k, c], ["new", 70, c], ["query", 0], ["rel", 5, 70, 50], ["query", c]],
                                ("family", "churn"), "exhaustive"))
+    # a container assertion (children.append) whose inference overwrites a scalar field (parent of the item): the value it
+    # overwrites dies at once and must not be part of the next census; a held query object is re-evaluated around it
+    for ops in _sg.overwrite_families():
+        cases.append(_case(ops + [["query", 1], ["query", 0]], ("family", "container-overwrite", "relations"), "exhaustive"))
+        # (a held query object evaluated BEFORE the overwrite would keep the old parent alive in its cached domain; when
+        # that is released inside the next evaluate() CPython frees only what is not part of a reference cycle — the
+        # model collects cycles at once; that difference is about cached domains, not about this family)
+        cases.append(_case([["mkq", 1, 1]] + ops + [["evalq", 1], ["query", 0]],
+                           ("family", "container-overwrite", "relations", "held-query"), "exhaustive"))
     for _ in range(n):
         g = _sg.Gen(rng, classes=rng.choice([(1, 2, 3), (1, 2, 3), (0, 1, 2, 3, 4, 5, 6, 7, 9), (2, 3, 9), (4, 5, 6, 7),
                                              (10, 11, 12, 4), (10, 11, 5, 9)]))
